@@ -11,10 +11,11 @@
    nesting, every interrupt point). Corr/C11.v makes this very transition system replay the
    log observed on the implementation ([drive], [drive_sound]) and compares what it
    computes with what was observed. *)
-From Eino Require Import Base.Util Model.StateLock Model.StateLockLTS Model.StateLockDrive Model.StateLockType.
+From Eino Require Import Base.Util Model.StateLock Model.StateLockLTS Model.StateLockDrive Model.StateLockType
+  Model.StateLockCode Model.StatePlumb.
 From Eino Require Import Proofs.StateLockLTS Proofs.StateLockVal Proofs.StateLockOrder Proofs.StateLockFlow
   Proofs.StateLockOwn Proofs.StateLockAcq Proofs.StateLockNest Proofs.StateLockLive Proofs.StateLockDrive Proofs.StateLock
-  Proofs.StateLockType Proofs.StateLockRun.
+  Proofs.StateLockType Proofs.StateLockRun Proofs.StateLockCode Proofs.StatePlumb.
 From Coq Require Import Permutation Sorted.
 Open Scope N_scope.
 
@@ -267,6 +268,100 @@ Theorem drive_reachable : forall f x0 runs l c,
   drive f x0 runs l = DOk c -> preach sstate X gen_state cs_fun leaf_out merge f x0 c.
 Proof. exact drive_sound. Qed.
 
+(* ---- the code of compose/state.go, graph.go, graph_run.go as programs (translator tie: the Gen
+   counterparts, re-read from the source by tools/go2v on every run, are proved to behave like /
+   be equal to these programs in Proofs/GenAgreeStateLock.v and Proofs/GenAgreeStatePlumb.v) *)
+
+(* each of the five wrappers around a user function (the closures of convertPreHandler,
+   convertPostHandler, streamConvertPreHandler, streamConvertPostHandler; ProcessState), for every
+   answer of getState and whether the user function returns, returns an error or panics: nothing at
+   all when no state is found, otherwise acquire; user function under the lock, with the state
+   found next to that lock; release — the mutex free on every exit *)
+Theorem critical_section_code_meets_protocol : forall w found h,
+  run_prog found h (cs_prog w) = cs_spec found h.
+Proof. exact wrappers_meet_protocol. Qed.
+
+Theorem critical_section_protocol_safe : forall found h,
+  let o := cs_spec found h in
+  (forall held have, In (ACall held have) (o_trace o) -> held = true /\ have = true) /\
+  o_held o = false /\
+  (o_exit o = ERet \/ o_exit o = EPanic) /\
+  (found = false -> o_trace o = []) /\
+  (found = true -> o_trace o = [AAcq; ACall true true; ARel]).
+Proof. exact protocol_safe. Qed.
+
+(* the critical section of the transition system — what the replay performs for every observed
+   section — is the script of the trace of the wrapper's code *)
+Theorem critical_section_is_code_script :
+  forall (S X : Type) (gen : nat -> S) (hfun : kind -> N -> X -> S -> X * S) (lout : N -> X -> X)
+         (mrg : list X -> X) (f : forest) (x0 : X) w h (c : config S X) i n, h <> HPanic ->
+    do_cs S X gen hfun lout mrg f x0 c i n =
+    run_steps S X (pstep S X gen hfun lout mrg f x0) c (script (o_trace (run_prog true h (cs_prog w))) i n).
+Proof. exact do_cs_is_wrapper_script. Qed.
+
+(* the lock a critical section takes is the mutex getState returns: that of the very holder whose
+   state the user function is given, found under the state key of the node's context; and where
+   getState finds nothing no critical section begins *)
+Theorem lock_taken_is_the_found_holders :
+  forall (S X : Type) (gen : nat -> S) (hfun : kind -> N -> X -> S -> X * S) (lout : N -> X -> X)
+         (mrg : list X -> X) (f : forest) (x0 : X) (c : config S X) i n c' J a s,
+    lookup S X f c i n = Some (J, a, s) ->
+    pstep S X gen hfun lout mrg f x0 c (ChAcq i n) = Some c' ->
+    exists o r, gs S X c J = GsOk r o /\ o_holder r = None /\
+                nth_error (c_objs c') o = Some (with_holder S r (Some (i, n))).
+Proof. exact acq_locks_what_get_state_finds. Qed.
+
+Theorem no_state_no_critical_section :
+  forall (S X : Type) (gen : nat -> S) (hfun : kind -> N -> X -> S -> X * S) (lout : N -> X -> X)
+         (mrg : list X -> X) (f : forest) (x0 : X) (c : config S X) i n J a s,
+    lookup S X f c i n = Some (J, a, s) ->
+    gs S X c J = GsErr ENoState ->
+    pstep S X gen hfun lout mrg f x0 c (ChAcq i n) = None.
+Proof. exact no_state_no_section. Qed.
+
+(* where the state object comes from: the start of an instance in the transition system is the
+   start block of runner.run (a graph that declares state binds the state key to a NEW holder with
+   what its generator returns; a graph without state keeps the context it was given) *)
+Theorem instance_start_is_start_block :
+  forall (S X : Type) (gen : nat -> S) (c : config S X) r g G parent inherited x,
+    let c' := new_inst S X gen c r g G parent inherited x in
+    exists st' J,
+      pexec S (mkPE (g_state G) (gen g) None 0) start_block (st_of S X c inherited) = Some st' /\
+      ps_objs st' = map (@o_val S) (c_objs c') /\
+      nth_error (c_insts c') (List.length (c_insts c)) = Some J /\
+      i_obj J = ps_ctx st' KState /\ i_run J = r /\ i_graph J = g /\ i_parent J = parent.
+Proof. exact new_inst_is_start_block. Qed.
+
+(* the resume step of the transition system is the save block of the interrupt handlers followed by
+   a resume block of runner.run: the holder's value is saved, the caller's modifier applied to it
+   exactly once, the result put into a NEW holder before the restored tasks are created, and every
+   instance that saw the old holder sees the new one *)
+Theorem resume_step_is_save_then_resume :
+  forall (S X : Type) (gen : nat -> S) (hfun : kind -> N -> X -> S -> X * S) (lout : N -> X -> X)
+         (mrg : list X -> X) (f : forest) (x0 : X) rb (c : config S X) o om c',
+    rb = resume_sub_block \/ rb = resume_top_block ->
+    pstep S X gen hfun lout mrg f x0 c (ChResume o (mod_fun om)) = Some c' ->
+    exists r st',
+      nth_error (c_objs c) o = Some r /\
+      pexec S (mkPE true (o_val r) om 0) (save_block ++ rb) (st_of S X c (Some o)) = Some st' /\
+      ps_objs st' = map (@o_val S) (c_objs c') /\
+      ps_ctx st' KState = Some (List.length (c_objs c)) /\
+      ps_restored st' = [Some (List.length (c_objs c))] /\
+      ps_modcalls st' = (match om with Some _ => 1 | None => 0 end)%nat /\
+      (forall J, i_obj J = Some o -> i_obj (remap S X o (List.length (c_objs c)) J) = ps_ctx st' KState).
+Proof. exact resume_step_is_save_then_resume_block. Qed.
+
+(* a graph that declares no state saves nothing at an interrupt and leaves the context alone on
+   resume: its nodes go on seeing the holder of the enclosing graph (F-C11a) *)
+Theorem stateless_graph_keeps_parent_context :
+  forall (S : Type) rb (g0 : S) om st,
+    rb = resume_sub_block \/ rb = resume_top_block ->
+    ps_cp st = None ->
+    exists st', pexec S (mkPE false g0 om 0) (save_block ++ rb) st = Some st' /\
+                ps_ctx st' = ps_ctx st /\ ps_objs st' = ps_objs st /\ ps_cp st' = None /\
+                ps_modcalls st' = ps_modcalls st /\ ps_restored st' = ps_restored st ++ [ps_ctx st KState].
+Proof. exact stateless_graph_keeps_context. Qed.
+
 Print Assumptions reach_included.
 Print Assumptions mutex.
 Print Assumptions held_lock_released.
@@ -286,6 +381,14 @@ Print Assumptions final_counters.
 Print Assumptions no_lost_update_without_lock_refuted.
 Print Assumptions mutex_without_lock_refuted.
 Print Assumptions drive_reachable.
+Print Assumptions critical_section_code_meets_protocol.
+Print Assumptions critical_section_protocol_safe.
+Print Assumptions critical_section_is_code_script.
+Print Assumptions lock_taken_is_the_found_holders.
+Print Assumptions no_state_no_critical_section.
+Print Assumptions instance_start_is_start_block.
+Print Assumptions resume_step_is_save_then_resume.
+Print Assumptions stateless_graph_keeps_parent_context.
 
 (* ------------------------------------------------------------------ non-vacuity *)
 
@@ -445,3 +548,25 @@ Example ex_drive :
   | DBad _ => False
   end.
 Proof. vm_compute. reflexivity. Qed.
+
+(* non-vacuity of the code theorems: the wrapper's trace with a failing user function, a panicking one,
+   and without state; the plumbing blocks on a run that is interrupted and resumed with a modifier *)
+Example ex_code_protocol :
+  o_trace (run_prog true HErrRet (cs_prog WProcess)) = [AAcq; ACall true true; ARel] /\
+  o_held (run_prog true HPanic (cs_prog WSPost)) = false /\
+  o_trace (run_prog false HRet (cs_prog WPre)) = [].
+Proof. repeat split; reflexivity. Qed.
+
+Example ex_plumb_roundtrip :
+  let env := mkPE true 10%nat (Some Datatypes.S) 0 in
+  match pexec nat env start_block (mkPS (fun _ => None) [] None [] 0) with
+  | Some st1 =>
+      ps_objs st1 = [10%nat] /\ ps_ctx st1 KState = Some 0%nat /\
+      match pexec nat env (save_block ++ resume_top_block) st1 with
+      | Some st2 => ps_objs st2 = [10; 11]%nat /\ ps_ctx st2 KState = Some 1%nat /\
+                    ps_restored st2 = [Some 1%nat] /\ ps_modcalls st2 = 1%nat
+      | None => False
+      end
+  | None => False
+  end.
+Proof. cbn. repeat split; reflexivity. Qed.
